@@ -259,8 +259,8 @@ static inline void heap_check(uintptr_t a, size_t n, bool is_write) {
 // ---------------------------------------------------------------------------
 // registered ranges (HB race detection, plain-access preemption)
 struct RCell {
-  uint32_t wclk; int8_t wtid;
-  struct { int8_t tid; uint32_t clk; } r[4];
+  uint32_t wclk; int16_t wtid;
+  struct { int16_t tid; uint32_t clk; } r[4];
 };
 static MVec<Range>* g_hb;
 static MVec<Range>* g_pre;
@@ -291,14 +291,14 @@ static void hb_access(Thread* me, uintptr_t a, size_t n, bool is_write) {
       if (is_write) {
         for (auto& rd : c.r)
           if (rd.tid >= 0 && rd.tid != me->id && rd.clk > me->vc.c[rd.tid]) race(me, r, x, true, rd.tid, false);
-        c.wtid = (int8_t)me->id; c.wclk = me->vc.c[me->id];
+        c.wtid = (int16_t)me->id; c.wclk = me->vc.c[me->id];
         for (auto& rd : c.r) rd.tid = -1;
       } else {
         int slot = -1;
         for (int i = 0; i < 4; i++) if (c.r[i].tid == me->id) { slot = i; break; }
         if (slot < 0) for (int i = 0; i < 4; i++) if (c.r[i].tid < 0 || c.r[i].clk <= me->vc.c[c.r[i].tid]) { slot = i; break; }
         if (slot < 0) slot = 0;
-        c.r[slot].tid = (int8_t)me->id; c.r[slot].clk = me->vc.c[me->id];
+        c.r[slot].tid = (int16_t)me->id; c.r[slot].clk = me->vc.c[me->id];
       }
     }
   }
